@@ -790,7 +790,17 @@ func (m *Machine) Merge(r, other string) string {
 }
 func (m *Machine) Pluck(r string, keys ...string) string {
 	var tok string
-	m.Op("pluck", r, keyToks(keys), func() string { tok = m.reg(m.O(r).Pluck(keys...)); return tok })
+	m.Op("pluck", r, keyToks(keys), func() string {
+		arg := append([]string(nil), keys...)
+		tok = m.reg(m.O(r).Pluck(arg...))
+		for i := range arg {
+			if arg[i] != keys[i] {
+				m.Alarm("C09", fmt.Sprintf("Pluck modified its argument: the caller's key slice %q became %q", keys, arg))
+				break
+			}
+		}
+		return tok
+	})
 	return tok
 }
 func (m *Machine) OContains(r string, g *GV) string {
@@ -889,6 +899,34 @@ func (m *Machine) OUnsetTF(r, tf string) string {
 }
 func (m *Machine) OTypeOfTF(r, tf string) string {
 	return m.Op("otypeoftf", r, "s"+hx(tf), func() string { return "k" + strconv.Itoa(int(m.O(r).TypeOfTF(tf))) })
+}
+
+// ---------------------------------------------------------------- parse results as live containers
+
+// Parse parses a document and registers the resulting container (it is then used like any other).
+func (m *Machine) Parse(root byte, doc string) string {
+	var tok string
+	name := "parselist"
+	if root == 'O' {
+		name = "parseobject"
+	}
+	m.Op(name, "-", "s"+hx(doc), func() string {
+		if root == 'L' {
+			l, err := at.ParseList(doc)
+			if err != nil || l == nil {
+				return "err"
+			}
+			tok = m.reg(l)
+			return tok
+		}
+		o, err := at.ParseObject(doc)
+		if err != nil || o == nil {
+			return "err"
+		}
+		tok = m.reg(o)
+		return tok
+	})
+	return tok
 }
 
 // ---------------------------------------------------------------- derived types (C19)
